@@ -18,12 +18,15 @@ import itertools
 
 ATOMS14 = ["int", "str", "None", "list", "dict", "tuple", "set", "Pattern", "a.b", "typing.Any", "...",
            "'int | str'", "Literal['a|b']", "Literal['x[', 1]"]
-# tier sub-alphabets: always keep a builtin generic, None, a string with '|', a Literal with '|'
-ATOMS8 = ["int", "None", "list", "Pattern", "a.b", "...", "'int | str'", "Literal['a|b']"]
-ATOMS6 = ["int", "None", "dict", "a.b", "'int | str'", "Literal['x[', 1]"]
-ATOMS5 = ["int", "None", "dict", "'int | str'", "Literal['x[', 1]"]
-ATOMS4 = ["int", "None", "tuple", "Literal['a|b']"]
-ATOMS3 = ["int", "tuple", "Literal['a|b']"]
+# tier sub-alphabets (sized to the time budget; all 14 atoms are always covered to depth 1 by full:A14:1)
+ALPHABETS = {
+    "A14": ATOMS14,
+    "A9": ["int", "None", "list", "dict", "Pattern", "a.b", "...", "'int | str'", "Literal['a|b']"],
+    "A8": ["int", "None", "list", "Pattern", "a.b", "...", "'int | str'", "Literal['a|b']"],
+    "A6": ["int", "None", "list", "Pattern", "'int | str'", "Literal['a|b']"],
+    "S3": ["int", "tuple", "Literal['x[', 1]"],
+    "S2": ["list", "Literal['a|b']"],
+}
 
 UNARY = [("list", "list[{}]"), ("set", "set[{}]"), ("Optional", "typing.Optional[{}]"), ("xSeq", "x.Seq[{}]"),
          ("Annotated", "Annotated[{}, 'm|n']")]
@@ -289,13 +292,12 @@ class NonAnnot(Family):
 
 @functools.lru_cache(maxsize=None)
 def family(spec: str) -> Family:
-    """'full:14:2' | 'spine:4:4' | 'chains:4:6' | 'chains:names:6' | 'nonannot:4' (atom-set size selects the alphabet)"""
+    """'full:A14:2' | 'spine:S3:4' | 'chains:3:6' | 'chains:names:6' | 'nonannot:4'"""
     kind, *rest = spec.split(":")
-    alph = {14: ATOMS14, 8: ATOMS8, 6: ATOMS6, 5: ATOMS5, 4: ATOMS4, 3: ATOMS3}
     if kind == "full":
-        return Full(alph[int(rest[0])], int(rest[1]))
+        return Full(ALPHABETS[rest[0]], int(rest[1]))
     if kind == "spine":
-        return Spine(alph[int(rest[0])], int(rest[1]))
+        return Spine(ALPHABETS[rest[0]], int(rest[1]))
     if kind == "chains":
         if rest[0] == "names":  # distinct operands a, b, c, ... in order: the pure parenthesisation space
             return Chains(["a", "b", "c", "d", "e", "f", "g"], int(rest[1]), product=False)
